@@ -39,7 +39,9 @@ Terms(n) ==
   { <<f>> : f \in Factors(n) }
   \cup UNION { { <<f>> \o t : f \in Factors(i), t \in Terms(n - i) } : i \in 1..(n - 1) }
 
-Case(fam, t, top, predef) == [fam |-> fam, term |-> t, top |-> top, predef |-> predef]
+Case(fam, t, top, predef) == [fam |-> fam, term |-> t, top |-> top, predef |-> predef, anchor |-> ""]
+\* a leading ^ / trailing $ anchor is a no-op for a token pattern (a token is matched as a whole string)
+ACase(t, a) == [fam |-> "F9", term |-> t, top |-> FALSE, predef |-> "", anchor |-> a]
 
 F1 == UNION { { Case("F1", t, FALSE, "") : t \in Terms(n) } : n \in 1..MaxSize }
 \* top-level alternation written without parentheses
@@ -103,7 +105,9 @@ F8 == { Case("F8", <<x, n, y>>, FALSE, "") : x \in {A, B}, n \in Nullables, y \i
       \cup { Case("F8", <<RepF(<<A, Opt(<<B>>)>>, q[1], q[2], q[3], FALSE), C>>, FALSE, "") : q \in QAll }
       \cup { Case("F8", <<AltF(<< <<n>> >>), C>>, FALSE, "") : n \in Nullables }
 
-All == F1 \cup F1top \cup F2 \cup F3 \cup F4 \cup F5 \cup F6 \cup F8
+F9 == { ACase(t, a) : t \in Terms(1) \cup Terms(2) \cup { <<Lit(105), Lit(102)>>, <<Lit(94), A>>, <<A, Lit(94), B>>, <<Lit(36)>> }, a \in {"^", "$", "^$"} }
+
+All == F9 \cup F1 \cup F1top \cup F2 \cup F3 \cup F4 \cup F5 \cup F6 \cup F8
 
 ASSUME /\ ndJsonSerialize("gen_cases.ndjson", SetToSeq(All))
        /\ PrintT(<<"GENERATED", Cardinality(All), "F1", Cardinality(F1) + Cardinality(F1top), "F2", Cardinality(F2),
